@@ -2,6 +2,10 @@ package rewardserver
 
 import (
 	"context"
+	"strings"
+	"time"
+
+	"github.com/goccy/go-json"
 
 	pairingtypes "github.com/lavanet/lava/v5/x/pairing/types"
 )
@@ -40,4 +44,139 @@ func VerifC29KeepsBest() {
 		}
 	}
 	verif_reach("end")
+}
+
+// ---- restart path: proofs snapshotted to the reward DB are restored and claimed in their window ----
+
+type verifC29DB struct {
+	DB
+	entries  map[string][]byte
+	deleted  []string // prefixes passed to DeletePrefix
+	entities []*RewardEntity
+}
+
+func (d *verifC29DB) Key() string                         { return "LAV1" }
+func (d *verifC29DB) FindAll() (map[string][]byte, error) { return d.entries, nil }
+func (d *verifC29DB) DeletePrefix(prefix string) error {
+	d.deleted = append(d.deleted, prefix)
+	for k := range d.entries {
+		if strings.HasPrefix(k, prefix) {
+			delete(d.entries, k)
+		}
+	}
+	return nil
+}
+
+// symbolic run: the JSON codec is a table lookup (stub of go-json Unmarshal); native: real JSON
+var verifC29Entities []*RewardEntity
+
+func verifC29Unmarshal(data []byte, v interface{}, opts ...json.DecodeOptionFunc) error {
+	*(v.(*RewardEntity)) = *verifC29Entities[int(data[0])]
+	return nil
+}
+
+func verifC29WithTimeout(parent context.Context, d time.Duration) (context.Context, context.CancelFunc) {
+	return parent, func() {}
+}
+
+type verifC29Sender struct {
+	RewardsTxSender
+	earliest uint64
+	distance uint64
+}
+
+func (s verifC29Sender) EarliestBlockInMemory(ctx context.Context) (uint64, error) { return s.earliest, nil }
+func (s verifC29Sender) GetEpochSizeMultipliedByRecommendedEpochNumToCollectPayment(ctx context.Context) (uint64, error) {
+	return s.distance, nil
+}
+
+// VerifC29RestoreAndClaim: after a restart the reward DB holds k snapshotted proofs (epochs 10/20/30, sessions 1/2,
+// arbitrary CU).  restoreRewardsFromDB runs with an arbitrary earliest epoch still in chain memory; then the claim
+// gathering runs at an arbitrary current epoch.  A proof whose epoch is still in chain memory is restored (and not
+// deleted from the DB); one that left chain memory is dropped; a restored proof is handed out for claiming exactly
+// when its epoch is no longer active, once.
+func VerifC29RestoreAndClaim() {
+	k := verif_param("proofs", 2)
+	earliest := uint64(verif_nondet_range("earliestEpochInChainMemory", 5, 35))
+	verif_assume(earliest%5 == 0)
+	db := &verifC29DB{entries: map[string][]byte{}}
+	rdb := NewRewardDB()
+	if err := rdb.AddDB(db); err != nil {
+		panic(err)
+	}
+	verifC29Entities = nil
+	epochs := make([]uint64, k)
+	sessions := make([]uint64, k)
+	cus := make([]uint64, k)
+	for i := 0; i < k; i++ {
+		epochs[i] = uint64(10 * verif_nondet_range("proof.epoch", 1, 3))
+		sessions[i] = uint64(verif_nondet_range("proof.session", 1, 2))
+		cus[i] = verif_nondet_u64("proof.CuSum")
+		dup := false
+		for j := 0; j < i; j++ {
+			if epochs[j] == epochs[i] && sessions[j] == sessions[i] {
+				dup = true
+			}
+		}
+		verif_assume(!dup) // the DB key (epoch, consumer, session, consumer key) is unique
+		ent := &RewardEntity{Epoch: epochs[i], ConsumerAddr: "consumer", ConsumerKey: "consumer LAV1", SessionId: sessions[i],
+			Proof: &pairingtypes.RelaySession{SessionId: sessions[i], CuSum: cus[i], Epoch: int64(epochs[i]), SpecId: "LAV1"}}
+		key := rdb.assembleKey(ent.Epoch, ent.ConsumerAddr, ent.SessionId, ent.ConsumerKey)
+		if verif_symbolic() {
+			verifC29Entities = append(verifC29Entities, ent)
+			db.entries[key] = []byte{byte(i)}
+		} else {
+			bz, err := json.Marshal(ent)
+			if err != nil {
+				panic(err)
+			}
+			db.entries[key] = bz
+		}
+	}
+	current := uint64(verif_nondet_range("currentEpoch", 30, 60))
+	verif_assume(current%10 == 0 && current >= earliest)
+	rws := &RewardServer{rewards: map[uint64]*EpochRewards{}, rewardDB: rdb, rewardsTxSender: verifC29Sender{earliest: earliest, distance: 20}}
+
+	err := rws.restoreRewardsFromDB("LAV1")
+	verif_assert("restore-succeeds", err == nil)
+	for i := 0; i < k; i++ {
+		var got *pairingtypes.RelaySession
+		if er, ok := rws.rewards[epochs[i]]; ok {
+			if cr, ok := er.consumerRewards["consumer LAV1"]; ok {
+				got = cr.proofs[sessions[i]]
+			}
+		}
+		key := rdb.assembleKey(epochs[i], "consumer", sessions[i], "consumer LAV1")
+		_, inDB := db.entries[key]
+		if epochs[i] >= earliest {
+			verif_assert("proof-of-an-epoch-still-in-chain-memory-is-restored", got != nil && got.CuSum == cus[i] && got.SessionId == sessions[i])
+			verif_assert("restored-proof-stays-in-the-db-until-claimed", inDB)
+		} else {
+			verif_assert("proof-of-an-epoch-out-of-chain-memory-is-dropped", got == nil && !inDB)
+		}
+	}
+
+	claim, gerr := rws.gatherRewardsForClaim(context.Background(), current, earliest)
+	verif_assert("gather-succeeds", gerr == nil)
+	for i := 0; i < k; i++ {
+		n := 0
+		for _, p := range claim {
+			if uint64(p.Epoch) == epochs[i] && p.SessionId == sessions[i] {
+				n++
+				verif_assert("claimed-proof-is-the-stored-one", p.CuSum == cus[i])
+			}
+		}
+		claimable := epochs[i] >= earliest && epochs[i]+20 <= current
+		if claimable {
+			verif_assert("claimable-proof-handed-out-once", n == 1)
+		} else {
+			verif_assert("proof-outside-its-claim-window-not-handed-out", n == 0)
+		}
+	}
+	again, _ := rws.gatherRewardsForClaim(context.Background(), current, earliest)
+	verif_assert("proofs-are-handed-out-only-once", len(again) == 0)
+	verif_reach("end")
+	if len(claim) > 0 {
+		verif_reach("claimed")
+	}
 }
